@@ -18,6 +18,7 @@ MUTANTS = [
  ("tree-children-ignored", ("[q \\in kids |-> <<F[q].s, IF F[q].t = \"dir\" THEN TreeObs(F, q, filt) ELSE <<>> >>] >>", "[q \\in kids |-> <<0, IF F[q].t = \"dir\" THEN TreeObs(F, q, filt) ELSE <<>> >>] >>"), "MC_BS2.tla", "MC_BS2_quick.cfg", set()),
  ("timestamp-constant", ("THEN 0 - (epoch + 2) ELSE -1", "THEN 0 - 2 ELSE -1"), "MC_BS4.tla", "MC_BS4_quick.cfg", {"RunTogether", "InPlaceOnce"}),
  ("mutated-compared", ("IF IsMutated(d.outs[j]) THEN (v.i[j] = 0) = ~Exists(F, PathOf(d.outs[j])) ELSE", "IF FALSE THEN (v.i[j] = 0) = ~Exists(F, PathOf(d.outs[j])) ELSE"), "MC_BS4.tla", "MC_BS4_quick.cfg", {"NullBuildRunsNothing", "NoSpuriousRerun"}),
+ ("scan-after-ignored", ('IF NodeRec(k.n).kind = "dir" THEN EnsureAll([i \\in 1..Len(Msa(k.n)) |-> NK(Msa(k.n)[i])], S0) ELSE S0', 'IF FALSE THEN EnsureAll([i \\in 1..Len(Msa(k.n)) |-> NK(Msa(k.n)[i])], S0) ELSE S0'), "MC_BS5.tla", "MC_BS5_quick.cfg", {"WriterCurrent", "SeenCurrent"}),
  ("stale-removes-expected", ("/\\ p \\notin SeqToSet(d.expected)\n         /\\ (d.roots", "/\\ TRUE\n         /\\ (d.roots"), "MC_BS3.tla", "MC_BS3_quick.cfg", {"StaleOnlyObsolete"}),
  ("stale-ignores-roots", ("/\\ (d.roots = <<>> \\/ (desc.paths[p].abs /\\ \\E i \\in 1..Len(d.roots) : Under(p, d.roots[i]))))", "/\\ TRUE)"), "MC_BS3.tla", "MC_BS3_quick.cfg", {"StaleOnlyObsolete"}),
  ("stale-keeps-some", ("RemoveAll(F, ps) == IF ps = <<>> THEN F ELSE RemoveAll(RemovePath(F, Head(ps)), Tail(ps))", "RemoveAll(F, ps) == IF ps = <<>> THEN F ELSE RemovePath(F, Head(ps))"), "MC_BS3.tla", "MC_BS3_quick.cfg", {"StaleAllObsolete"}),
